@@ -1,6 +1,6 @@
 (* Executable correspondence checker for C06 (efficiency), on Check.C01 cases. *)
 From Coq Require Import List Arith ZArith QArith Qabs Bool.
-From DS Require Import Util.SumQ Spec.Shapley Spec.NNGame Model.Provenance Model.Kernel Model.Neighbor Check.Harness Check.C01.
+From DS Require Import Util.SumQ Spec.Shapley Spec.NNGame Model.Provenance Model.Kernel Model.KernelRound Model.Neighbor Check.Harness Check.C01.
 Import ListNotations.
 Local Open Scope Q_scope.
 
@@ -12,14 +12,25 @@ Definition rhs (c : C01.case) (orders : list (list nat)) : Q :=
   - sumQ (fun x => x) (c_nulls c) / qn (length (c_nulls c)).
 Definition total (l : list Q) : Q := sumQ (fun x => x) l.
 
+(* precision: every score returned by the implementation (binary64, converted exactly) lies within the PROVED forward error bound
+   (C06_rounded_score, eps = 2^-53) of the exact score, for some admissible rank order *)
+Definition eps64 : Q := 1 # (2 ^ 53).
+Definition within_proved (c : C01.case) (orders : list (list nat)) : bool :=
+  let n := c_n c in
+  let ts := combine (combine (map (fun t => unit_utility (c_labels c) (c_owner c) (fst t) (snd t)) (combine (c_dist c) (c_ucols c)))
+                             (c_nulls c)) orders in
+  let G := pw eps64 (3 * n + length ts + 1) - 1 in
+  let exact := kernel_t n ts in let scale := akernel_t n ts in
+  forallb (fun p => Qle_bool (Qabs (nth p (i_scores c) 0 - nth p exact 0)) (G * nth p scale 0)) (seq 0 n).
+
 Definition check (c : case) : bool * bool * bool :=
   let hint := hd [] (c_alts c) in
   let valid := forallb (valid_orders c) (c_alts c) && negb (Nat.eqb (length (c_alts c)) 0) in
   let tol := c_tol c * qn (S (c_n c)) in
   let m := total (model_scores c hint) in
-  ( valid && close tol (total (i_scores c)) m,
-    valid && existsb (fun o => close tol (total (i_scores c)) (rhs c o)) (c_alts c),
+  ( valid && close tol (total (i_scores c)) m && existsb (within_proved c) (c_alts c),
+    valid && existsb (fun o => close tol (total (i_scores c)) (rhs c o)) (c_alts c) && existsb (within_proved c) (c_alts c),
     Qeq_bool m (rhs c hint) ).
 
 Definition explain (c : case) :=
-  let hint := hd [] (c_alts c) in (Qred (total (i_scores c)), Qred (total (model_scores c hint)), Qred (rhs c hint)).
+  let hint := hd [] (c_alts c) in (Qred (total (i_scores c)), Qred (total (model_scores c hint)), Qred (rhs c hint), map (within_proved c) (c_alts c)).
